@@ -76,6 +76,7 @@ def run(tier, seed, log=common.say):
     jobs = plan(tier, seed)
     res = ed.run_all(jobs)
     herr = [r for r in res if any(e["op"] == "harness-error" for e in r["ev"])]
+    skipped = sum(1 for r in res if r.get("skipped"))
     seen = {}
     for r in res:
         if not r["ev"] or r in herr:
@@ -100,7 +101,7 @@ def run(tier, seed, log=common.say):
                 kept[x["c"]] = kept.get(x["c"], 0) + 1
                 viols.append({"clause": x["c"], "i": x["i"], "d": t["d"], "ops": t["ops"], "async": t["async"], "sres": t.get("sres", "thread"), "ev": t["ev"]})
     out = {"engine": "E4", "tier": tier, "seed": seed, "histories": len(jobs), "distinct_traces": len(traces),
-           "events": sum(len(t["ev"]) for t in traces), "harness_errors": [h["ev"][-1] for h in herr][:5],
+           "events": sum(len(t["ev"]) for t in traces), "skipped_after_hang": skipped, "harness_errors": [h["ev"][-1] for h in herr][:5],
            "harness_error_count": len(herr), "validated": len(verdicts), "states": states, "transitions": trans,
            "tlc_errors": errs[:2], "counters": counters, "viol_counts": viol_counts, "violations": viols,
            "samples": [{"template": ed.TEMPLATES[t["d"] - 1]["name"], "async": t["async"],
